@@ -6,7 +6,7 @@ STATE_POOL = ["S", "E", "I", "R", "N", "Q", "A", "B", "C", "D", "U", "V", "W", "
 CSAFE_STATES = ["A", "B", "C", "D", "U", "V", "W", "X", "Y", "Z"]
 PARAM_POOL = ["beta", "gamma", "mu", "k1", "k2", "alpha", "zeta", "w", "rho", "eps", "kappa", "nu"]
 CSAFE_PARAMS = ["b1", "g1", "mu", "k1", "k2", "al", "w", "rho", "eps", "kap", "nu"]
-RATE_FORMS = ["lin", "mass", "sat", "exp", "per", "const"]
+RATE_FORMS = ["lin", "mass", "sat", "exp", "per", "const", "sum", "dif"]
 
 
 def gen_rate(rng, states, params, derived, forms=RATE_FORMS):
@@ -25,6 +25,10 @@ def gen_rate(rng, states, params, derived, forms=RATE_FORMS):
         return "%s*exp(-%s*%s)" % (p, p2, s)
     if form == "per":
         return "%s*%s*(1+0.5*cos(2*t+%s))" % (p, s, p2)
+    if form == "sum":      # a rate with a top-level sum: force of infection plus import, two routes of loss, ...
+        return "%s*%s + %s*%s" % (p, s, p2, s2)
+    if form == "dif":
+        return "%s*%s*%s - 0.1*%s*%s" % (p, s, s2, p2, s)
     return "%s" % p
 
 
@@ -59,6 +63,8 @@ def gen_assembly(rng, csafe=False, time_dep=True, max_states=5, min_states=1, al
             mag = str(rng.choice([1, 1, 2, 3, 0.5]))
             if sym_mag and rng.random() < 0.15:
                 mag = rng.choice(params)
+            elif sym_mag and rng.random() < 0.08:     # a magnitude that is itself an expression of a parameter
+                mag = rng.choice(["%s+1", "2*%s", "1-%s", "%s/2"]) % rng.choice(params)
             if tt == "T":
                 o, d = rng.sample(states, 2)
                 trs.append(["T", o, d, mag])
@@ -96,6 +102,10 @@ def classes(spec):
         c.append("symbolic-magnitude")
     if any(m not in ("1",) and m not in spec["params"] for m in mags):
         c.append("non-unit-magnitude")
+    if any(any(ch in m for ch in "+-*/") for m in mags):
+        c.append("expression-magnitude")
+    if any((" + " in e["rate"] or " - " in e["rate"]) for e in spec["events"]):
+        c.append("rate-with-top-level-sum")
     txt = " ".join([e["rate"] for e in spec["events"]] + [o[1] for o in spec["odes"]] + [d[1] for d in spec["derived"]])
     if "cos(" in txt:
         c.append("time-dependent")
